@@ -287,10 +287,12 @@ func runC12(c *Ctx) {
 
 	if w.killed {
 		w.crashOracle()
-		// unwind the flush goroutine so that the bubble can end; whatever the
-		// dead process still held in memory never reaches the device
-		w.sink.Dead = true
-		w.bws.Stop()
+		// The process is dead: its tasks were unwound in the middle of whatever
+		// they were doing (which no live process ever sees), so nothing of the
+		// dead syncer is called again - a Stop could wait for ever for a
+		// goroutine that was unwound with the rest - and a flush goroutine of
+		// the dead process that is still blocked when the run ends is no leak.
+		ignoreLeak = true
 		if r.Failed() {
 			return
 		}
